@@ -1,6 +1,6 @@
 use crate::http_codec::HttpCodec;
 use crate::shutdown::Shutdown;
-use crate::{http_codec, log_id, log_utils, pipe};
+use crate::{http_codec, log_id, log_utils, net_utils, pipe};
 use bytes::Bytes;
 use std::io::ErrorKind;
 use std::sync::atomic::{AtomicUsize, Ordering};
@@ -59,7 +59,12 @@ async fn listen_inner(
         match tokio::time::timeout(timeout, codec.listen()).await {
             Ok(Ok(Some(x))) => {
                 let request_headers = x.request().request();
-                log_id!(trace, x.id(), "Received request: {:?}", request_headers);
+                log_id!(
+                    trace,
+                    x.id(),
+                    "Received request: {:?}",
+                    net_utils::scrub_request(request_headers)
+                );
                 match prepare_speedtest(request_headers) {
                     Ok(Speedtest::Download(n)) => {
                         manager.running_tests_num.fetch_add(1, Ordering::AcqRel);
